@@ -64,20 +64,15 @@ extern int mpt_queue_crop(MPT_STRUCT(queue) *queue, size_t pos, size_t len)
 	
 	/* move data over segments */
 	if (high) {
-		uint8_t *src = ((uint8_t *) queue->base) + len - low;
-		if (low <= post) {
-			memcpy(base, src, post);
-			ret = 1;
+		uint8_t *first = queue->base;
+		size_t dst = base - first, src = (dst + len) % queue->max;
+		/* source is always ahead of target */
+		while (post--) {
+			first[dst] = first[src];
+			if (++dst == queue->max) dst = 0;
+			if (++src == queue->max) src = 0;
 		}
-		else {
-			/* limit moved data size */
-			memcpy(base, src, low);
-			post -= low;
-			base = queue->base;
-			/* start at offset 'low' in post data ((len - low) + low) */
-			(void) memmove(base, base+len, post);
-			ret = 3;
-		}
+		ret = 1;
 	}
 	/* linear data move */
 	else if (post) {
